@@ -125,9 +125,10 @@ VARIABLES inp,   \* the arguments of the call (a record, per Mode)
           pc,
           i, j,  \* loop counters of the code
           loc,   \* local variables of the running function (a record)
-          out    \* the returned value
+          out,   \* the returned value
+          ref    \* what the DEFINITION says about inp; computed once in Init, never read by an action
 
-vars == <<inp, pc, i, j, loc, out>>
+vars == <<inp, pc, i, j, loc, out, ref>>
 
 DevSingle == "single-transition-ord-time-is-sum"
 DevGenerator == "cards_matrices-generator-input"
@@ -373,61 +374,67 @@ AggTimes(r) == Fix([a \in 1..Len(r.times) |-> Fix([f \in 1..Len(r.times[1]) |-> 
 (* ============================================================================ *)
 (* (2) the step machines                                                         *)
 (* ============================================================================ *)
+RefOf(r) == CASE Mode = "times" -> DefTimes(r.tt)
+              [] Mode = "dtraj" -> DefDTraj(r.tt, r.len, r.O, r.D)
+              [] Mode = "agg" -> DefAgg(AggTimes(r), r.w, Len(r.times), Len(r.times[1]))
+              [] Mode = "pipe" -> DefPipe(r.x)
+
 Init == /\ inp \in Inputs
         /\ pc = Mode
         /\ i = 0 /\ j = 0
         /\ loc = [none |-> 0]
         /\ out = [none |-> 0]
+        /\ ref = RefOf(inp)
 
 (* ---- traj_ord_disord_times --------------------------------------------------- *)
 (* num_transitions == 0: the four initial zeros are returned *)
 T_None == /\ pc = "times" /\ Len(inp.tt) = 0
           /\ out' = ZeroTimes /\ pc' = "done"
-          /\ UNCHANGED <<inp, i, j, loc>>
+          /\ UNCHANGED <<ref, inp, i, j, loc>>
 (* if num_transitions == 1 *)
 T_One == /\ pc = "times" /\ Len(inp.tt) = 1
          /\ LET w == inp.tt[1]
             IN out' = [ord |-> Rat(w * (w + 1), 2), n_ord |-> w, dis |-> RZero, n_dis |-> 0]
          /\ pc' = "done"
-         /\ UNCHANGED <<inp, i, j, loc>>
+         /\ UNCHANGED <<ref, inp, i, j, loc>>
 (* elif num_transitions > 1: time_between_events = np.diff(transition_times) *)
 T_Diff == /\ pc = "times" /\ Len(inp.tt) > 1
           /\ loc' = [tbe |-> Diff(inp.tt)]
           /\ pc' = "t_dis"
-          /\ UNCHANGED <<inp, i, j, out>>
+          /\ UNCHANGED <<ref, inp, i, j, out>>
 (* disord_time = time_between_events.mean() *)
 T_Disord == /\ pc = "t_dis"
             /\ loc' = [tbe |-> loc.tbe, dis |-> Rat(SumSeq(loc.tbe), Len(loc.tbe))]
             /\ pc' = "t_waits"
-            /\ UNCHANGED <<inp, i, j, out>>
+            /\ UNCHANGED <<ref, inp, i, j, out>>
 (* max_waiting_times = [transition_times[0]] + time_between_events *)
 T_Waits == /\ pc = "t_waits"
            /\ loc' = [tbe |-> loc.tbe, dis |-> loc.dis, mw |-> <<inp.tt[1]>> \o loc.tbe]
            /\ pc' = "t_ord"
-           /\ UNCHANGED <<inp, i, j, out>>
+           /\ UNCHANGED <<ref, inp, i, j, out>>
 (* sum_waiting_times = mw*(mw+1)/2; ord_time = sum_waiting_times.sum()/mw.sum() *)
 T_Ord == /\ pc = "t_ord"
          /\ LET sw2 == [k \in 1..Len(loc.mw) |-> loc.mw[k] * (loc.mw[k] + 1)]
             IN loc' = [tbe |-> loc.tbe, dis |-> loc.dis, mw |-> loc.mw,
                        ord |-> Rat(SumSeq(sw2), 2 * SumSeq(loc.mw))]
          /\ pc' = "t_counts"
-         /\ UNCHANGED <<inp, i, j, out>>
+         /\ UNCHANGED <<ref, inp, i, j, out>>
 (* n_disord = tt[-1] - tt[0]; n_ord = tt[-1]; return *)
 T_Counts == /\ pc = "t_counts"
             /\ out' = [ord |-> loc.ord, n_ord |-> LastOf(inp.tt), dis |-> loc.dis,
                        n_dis |-> LastOf(inp.tt) - inp.tt[1]]
             /\ pc' = "done"
-            /\ UNCHANGED <<inp, i, j, loc>>
+            /\ UNCHANGED <<ref, inp, i, j, loc>>
 
 (* ---- create_disorder_traj ---------------------------------------------------- *)
 (* traj = np.zeros(traj_len); if num_transitions < 2: return traj *)
 D_Few == /\ pc = "dtraj" /\ Len(inp.tt) < 2
          /\ out' = Zeros(inp.len) /\ pc' = "done"
-         /\ UNCHANGED <<inp, i, j, loc>>
+         /\ UNCHANGED <<ref, inp, i, j, loc>>
 D_Enter == /\ pc = "dtraj" /\ Len(inp.tt) >= 2
            /\ loc' = [traj |-> Zeros(inp.len)]
            /\ i' = 0 /\ pc' = "d_loop"
-           /\ UNCHANGED <<inp, j, out>>
+           /\ UNCHANGED <<ref, inp, j, out>>
 (* one iteration of `for i in range(num_transitions-1)`, by the branch taken *)
 D_Seg(v) == /\ pc = "d_loop" /\ i < Len(inp.tt) - 1
             /\ LET a == inp.tt[i + 1]          \* seg_start = transition_times[i]   (0-based i)
@@ -435,13 +442,13 @@ D_Seg(v) == /\ pc = "d_loop" /\ i < Len(inp.tt) - 1
                IN /\ Decision(b - a, inp.O, inp.D) = v
                   /\ loc' = [traj |-> WriteSlice(loc.traj, a, b, v)]
             /\ i' = i + 1
-            /\ UNCHANGED <<inp, pc, j, out>>
+            /\ UNCHANGED <<ref, inp, pc, j, out>>
 D_SegDisordered == D_Seg(1)      \* likelihood_ratio >= 3.0: traj[seg_start:seg_end] = 1.
 D_SegOrdered == D_Seg(0)         \* else:                    traj[seg_start:seg_end] = 0.
 D_SegEither == D_Seg(2)          \* the integer intervals cannot tell which branch: frames marked 2
 D_Return == /\ pc = "d_loop" /\ i = Len(inp.tt) - 1
             /\ out' = loc.traj /\ pc' = "done"
-            /\ UNCHANGED <<inp, i, j, loc>>
+            /\ UNCHANGED <<ref, inp, i, j, loc>>
 
 (* ---- aggregate_mean_times ---------------------------------------------------- *)
 ANT == Len(inp.times)
@@ -451,15 +458,15 @@ A_Normalise == /\ pc = "agg"
                /\ loc' = [mean |-> [f \in 1..ANF |-> RZero],
                           nlw |-> [a \in 1..ANT |-> Rat(inp.w[a], SumTo(inp.w, ANT))]]
                /\ i' = 0 /\ pc' = "a_loop"
-               /\ UNCHANGED <<inp, j, out>>
+               /\ UNCHANGED <<ref, inp, j, out>>
 (* for i in range(n_features): mean_times[i] = (times[:, i] * nl_weight).sum() *)
 A_Feature == /\ pc = "a_loop" /\ i < ANF
              /\ loc' = [loc EXCEPT !.mean[i + 1] = ImplAggFeature(AggTimes(inp), loc.nlw, ANT, i + 1)]
              /\ i' = i + 1
-             /\ UNCHANGED <<inp, pc, j, out>>
+             /\ UNCHANGED <<ref, inp, pc, j, out>>
 A_Return == /\ pc = "a_loop" /\ i = ANF
             /\ out' = loc.mean /\ pc' = "done"
-            /\ UNCHANGED <<inp, i, j, loc>>
+            /\ UNCHANGED <<ref, inp, i, j, loc>>
 
 (* ---- assign_order_disorder, which starts by calling transition_stats ---------- *)
 PNT == NT(inp.x)
@@ -468,7 +475,7 @@ P_Enter == /\ pc = "pipe"
            /\ loc' = [tts |-> [a \in 1..PNT |-> <<>>],            \* transition_times = []
                       tab |-> [a \in 1..PNT |-> [f \in 1..PNF |-> ZeroTimes]]]   \* the four np.zeros tables
            /\ i' = 1 /\ j' = 1 /\ pc' = "p_stats"
-           /\ UNCHANGED <<inp, out>>
+           /\ UNCHANGED <<ref, inp, out>>
 (* body of `for i in range(n_traj): for j in range(n_features):` in transition_stats:
    tt = transitions(rotamer_trajs[i][:, j]); transition_times[i].append(tt);
    (ordered_times[i, j], ...) = traj_ord_disord_times(tt) *)
@@ -476,14 +483,14 @@ P_StatsCol == /\ pc = "p_stats" /\ i <= PNT
               /\ LET tt == TT(inp.x, i, j)
                  IN loc' = [loc EXCEPT !.tts[i] = Append(@, tt), !.tab[i][j] = ImplTimes(tt)]
               /\ IF j < PNF THEN j' = j + 1 /\ i' = i ELSE j' = 1 /\ i' = i + 1
-              /\ UNCHANGED <<inp, pc, out>>
+              /\ UNCHANGED <<ref, inp, pc, out>>
 (* trj_lengths; mean_ordered_times = aggregate_mean_times(ordered_times, n_ordered_times, trj_lengths) *)
 P_AggOrdered == /\ pc = "p_stats" /\ i > PNT
                 /\ loc' = [tts |-> loc.tts, tab |-> loc.tab,
                            mo |-> ImplAgg([a \in 1..PNT |-> [f \in 1..PNF |-> loc.tab[a][f].ord]],
                                           Lens(inp.x), PNT, PNF)]
                 /\ pc' = "p_aggd"
-                /\ UNCHANGED <<inp, i, j, out>>
+                /\ UNCHANGED <<ref, inp, i, j, out>>
 (* mean_disordered_times = aggregate_mean_times(disordered_times, n_disordered_times, trj_lengths);
    back in assign_order_disorder: disordered_trajs = [] *)
 P_AggDisordered == /\ pc = "p_aggd"
@@ -492,30 +499,30 @@ P_AggDisordered == /\ pc = "p_aggd"
                                              Lens(inp.x), PNT, PNF),
                               dt |-> <<>>, cur |-> <<>>]
                    /\ i' = 1 /\ j' = 0 /\ pc' = "p_assign"
-                   /\ UNCHANGED <<inp, out>>
+                   /\ UNCHANGED <<ref, inp, out>>
 (* for i in range(len(rotamer_trajs)): dis_traj = np.zeros((traj_len, n_features)) *)
 P_AssignTraj == /\ pc = "p_assign" /\ i <= PNT /\ j = 0
                 /\ loc' = [loc EXCEPT !.cur = [n \in 1..Len(inp.x[i]) |-> [f \in 1..PNF |-> 0]]]
                 /\ j' = 1
-                /\ UNCHANGED <<inp, pc, i, out>>
+                /\ UNCHANGED <<ref, inp, pc, i, out>>
 (* for j in range(n_features): dis_traj[:, j] = create_disorder_traj(transition_times[i][j], traj_len,
    mean_ordered_times[j], mean_disordered_times[j]) *)
 P_AssignCol == /\ pc = "p_assign" /\ i <= PNT /\ j >= 1 /\ j <= PNF
                /\ LET c == ImplDTraj(loc.tts[i][j], Len(inp.x[i]), loc.mo[j], loc.md[j])
                   IN loc' = [loc EXCEPT !.cur = [n \in 1..Len(@) |-> [@[n] EXCEPT ![j] = c[n]]]]
                /\ j' = j + 1
-               /\ UNCHANGED <<inp, pc, i, out>>
+               /\ UNCHANGED <<ref, inp, pc, i, out>>
 (* disordered_trajs.append(dis_traj.astype('int16')) *)
 P_AppendTraj == /\ pc = "p_assign" /\ i <= PNT /\ j = PNF + 1
                 /\ loc' = [loc EXCEPT !.dt = Append(@, loc.cur)]
                 /\ i' = i + 1 /\ j' = 0
-                /\ UNCHANGED <<inp, pc, out>>
+                /\ UNCHANGED <<ref, inp, pc, out>>
 (* disorder_n_states = 2*np.ones(n_features); return *)
 P_Return == /\ pc = "p_assign" /\ i > PNT
             /\ out' = [tt |-> loc.tts, mo |-> loc.mo, md |-> loc.md, dt |-> loc.dt,
                        ns |-> [f \in 1..PNF |-> 2]]
             /\ pc' = "done"
-            /\ UNCHANGED <<inp, i, j, loc>>
+            /\ UNCHANGED <<ref, inp, i, j, loc>>
 
 Next == \/ T_None \/ T_One \/ T_Diff \/ T_Disord \/ T_Waits \/ T_Ord \/ T_Counts
         \/ D_Few \/ D_Enter \/ D_SegDisordered \/ D_SegOrdered \/ D_SegEither \/ D_Return
@@ -540,21 +547,21 @@ TypeOK == /\ pc \in {"times", "t_dis", "t_waits", "t_ord", "t_counts", "dtraj", 
 TimesInputOK == Mode = "times" => Increasing(inp.tt) /\ \A k \in 1..Len(inp.tt) : inp.tt[k] >= 0
 TimesMachineIsTranscription == (Mode = "times" /\ Done) => out = ImplTimes(inp.tt)
 TimesImplIsDefExceptKnown == (Mode = "times" /\ Done) =>
-  (out = DefTimes(inp.tt) <=> ~IsDevSingle(inp.tt))
+  (out = ref <=> ~IsDevSingle(inp.tt))
 (* the deviation is exactly "sum instead of mean": ord is t_1 times the definition's, the rest agrees *)
 TimesDeviationIsExactlyTheSum == (Mode = "times" /\ Done /\ IsDevSingle(inp.tt)) =>
-  LET e == DefTimes(inp.tt)
+  LET e == ref
   IN /\ out.ord = RScale(inp.tt[1], e.ord)
      /\ out.n_ord = e.n_ord /\ out.dis = e.dis /\ out.n_dis = e.n_dis
 TimesNonNegative == (Mode = "times" /\ Done) =>
   /\ IsRatOK(out.ord) /\ IsRatOK(out.dis) /\ out.ord[1] >= 0 /\ out.dis[1] >= 0
   /\ out.n_ord >= 0 /\ out.n_dis >= 0
-  /\ LET e == DefTimes(inp.tt) IN IsRatOK(e.ord) /\ IsRatOK(e.dis) /\ e.ord[1] >= 0 /\ e.dis[1] >= 0
+  /\ LET e == ref IN IsRatOK(e.ord) /\ IsRatOK(e.dis) /\ e.ord[1] >= 0 /\ e.dis[1] >= 0
 TimesNoTransitions == (Mode = "times" /\ Done /\ inp.tt = <<>>) => out = ZeroTimes /\ DefTimes(<<>>) = ZeroTimes
 (* laws of the definition *)
 TimesLaws == (Mode = "times" /\ Done) =>
   LET tt == inp.tt
-      e == DefTimes(tt)
+      e == ref
       m == Len(tt)
   IN /\ m >= 2 => /\ e.dis = Rat(LastOf(tt) - tt[1], m - 1)            \* the gaps telescope
                   /\ e.n_ord = e.n_dis + tt[1]
@@ -575,7 +582,7 @@ TimesLaws == (Mode = "times" /\ Done) =>
 
 (* ---- create_disorder_traj ------------------------------------------------------ *)
 DTrajMachineIsTranscription == (Mode = "dtraj" /\ Done) => out = ImplDTraj(inp.tt, inp.len, inp.O, inp.D)
-DTrajIsDef == (Mode = "dtraj" /\ Done) => out = DefDTraj(inp.tt, inp.len, inp.O, inp.D)
+DTrajIsDef == (Mode = "dtraj" /\ Done) => out = ref
 DTrajShape == (Mode = "dtraj" /\ Done) =>
   /\ Len(out) = inp.len
   /\ \A f \in 1..Len(out) : out[f] \in {0, 1, 2}
@@ -599,7 +606,7 @@ DecisionLaws == (Mode = "dtraj" /\ pc = "dtraj" /\ inp.tt = <<>> /\ inp.len = Mi
 (* ---- aggregate_mean_times ------------------------------------------------------ *)
 AggMachineIsDef == (Mode = "agg" /\ Done) =>
   /\ out = ImplAgg(AggTimes(inp), inp.w, ANT, ANF)
-  /\ out = DefAgg(AggTimes(inp), inp.w, ANT, ANF)
+  /\ out = ref
 AggIsWeightedMean == (Mode = "agg" /\ Done) =>
   LET tm == AggTimes(inp)
       pos == {a \in 1..ANT : inp.w[a] > 0}
@@ -617,7 +624,8 @@ AggLaws == (Mode = "agg" /\ Done) =>
      /\ out = DefAgg([a \in 1..ANT |-> tm[rev[a]]], [a \in 1..ANT |-> inp.w[rev[a]]], ANT, ANF)   \* order of the trajectories
      /\ \A f \in 1..ANF : out[f] = DefAgg([a \in 1..ANT |-> <<tm[a][f]>>], inp.w, ANT, 1)[1]     \* features do not mix
 (* n_times plays no role (the machine never reads inp.nt); stated on the definition for the record *)
-AggIgnoresNTimes == (Mode = "agg" /\ Done) => out = DefAgg(AggTimes(inp), inp.w, ANT, ANF)
+AggIgnoresNTimes == (Mode = "agg" /\ Done) =>
+  out = RefOf([inp EXCEPT !.nt = <<>>])
 (* NOT a property of the code or of its docstring: see the module header.  TLC refutes it. *)
 AggIsMeanOverObservers == (Mode = "agg" /\ Done) =>
   LET tm == AggTimes(inp)
@@ -630,7 +638,7 @@ PipeInputOK == Mode = "pipe" =>
   /\ \A a \in 1..PNT : Len(inp.x[a]) >= 1 /\ \A n \in 1..Len(inp.x[a]) : Len(inp.x[a][n]) = PNF
 PipeMachineIsTranscription == (Mode = "pipe" /\ Done) => out = TransPipe(inp.x)
 PipeIsDefExceptKnown == (Mode = "pipe" /\ Done) =>
-  LET e == DefPipe(inp.x)
+  LET e == ref
   IN /\ ~PipeHasDevSingle(inp.x) => out = e
      /\ out.tt = e.tt /\ out.md = e.md /\ out.ns = e.ns
 PipeShape == (Mode = "pipe" /\ Done) =>
@@ -644,7 +652,7 @@ PipeShape == (Mode = "pipe" /\ Done) =>
   /\ \A f \in 1..PNF : IsRatOK(out.mo[f]) /\ IsRatOK(out.md[f]) /\ out.mo[f][1] >= 0 /\ out.md[f][1] >= 0
 (* wherever create_disorder_traj reaches the likelihood ratio, both mean times are positive *)
 PipeUsedTimesPositive == (Mode = "pipe" /\ Done) =>
-  LET e == DefPipe(inp.x)
+  LET e == ref
   IN \A a \in 1..PNT, f \in 1..PNF : Len(out.tt[a][f]) >= 2 =>
         /\ out.mo[f][1] > 0 /\ out.md[f][1] > 0
         /\ e.mo[f][1] > 0 /\ e.md[f][1] > 0
@@ -654,27 +662,30 @@ PipeNoTransitions == (Mode = "pipe" /\ Done) =>
      (\A n \in 1..Len(inp.x[a]) : inp.x[a][n][f] = inp.x[a][1][f]) =>
         /\ out.tt[a][f] = <<>>
         /\ \A n \in 1..Len(inp.x[a]) : out.dt[a][n][f] = 0
-(* nothing leaks: the per-(trajectory, feature) entries are those of the trajectory alone; a feature's
-   results are those of the pipeline run on that feature alone; another trajectory acts only through
-   the two mean times; the order of the trajectories is immaterial *)
+(* nothing leaks.  The per-(trajectory, feature) entries of the machine's tables are those of that
+   column alone although the loops reuse their locals (out.tt = ref.tt above, and the first clause
+   here for the four tables); a feature's results are those of the pipeline run on that feature
+   alone; another trajectory acts only through the two mean times of the feature; the order of the
+   trajectories is immaterial *)
 PipeNoLeak == (Mode = "pipe" /\ Done) =>
   LET x == inp.x
-      e == DefPipe(x)
-  IN /\ \A a \in 1..PNT : e.tt[a] = DefPipe(<<x[a]>>).tt[1] /\ out.tt[a] = e.tt[a]
-     /\ \A f \in 1..PNF :
+      e == ref
+  IN /\ \A a \in 1..PNT, f \in 1..PNF : loc.tab[a][f] = ImplTimes(TT(<<x[a]>>, 1, f))
+     /\ PNF > 1 => \A f \in 1..PNF :
           LET xf == [a \in 1..PNT |-> [n \in 1..Len(x[a]) |-> <<x[a][n][f]>>]]
               ef == DefPipe(xf)
           IN /\ ef.mo[1] = e.mo[f] /\ ef.md[1] = e.md[f]
              /\ \A a \in 1..PNT : \A n \in 1..Len(x[a]) : ef.dt[a][n][1] = e.dt[a][n][f]
-     /\ \A a \in 1..PNT, f \in 1..PNF : \A n \in 1..Len(x[a]) :
-          e.dt[a][n][f] = DefDTraj(TT(x, a, f), Len(x[a]), e.mo[f], e.md[f])[n]
-     /\ LET rx == [a \in 1..PNT |-> x[PNT + 1 - a]]
-            er == DefPipe(rx)
-        IN er.mo = e.mo /\ er.md = e.md /\ \A a \in 1..PNT : er.dt[a] = e.dt[PNT + 1 - a]
+     /\ \A a \in 1..PNT, f \in 1..PNF :
+          LET c == DefDTraj(e.tt[a][f], Len(x[a]), e.mo[f], e.md[f])
+          IN \A n \in 1..Len(x[a]) : e.dt[a][n][f] = c[n]
+     /\ PNT > 1 => LET rx == [a \in 1..PNT |-> x[PNT + 1 - a]]
+                       er == DefPipe(rx)
+                   IN er.mo = e.mo /\ er.md = e.md /\ \A a \in 1..PNT : er.dt[a] = e.dt[PNT + 1 - a]
 (* a single trajectory: the means are its own times *)
 PipeSingleTrajectory == (Mode = "pipe" /\ Done /\ PNT = 1) =>
-  LET e == DefPipe(inp.x)
-  IN \A f \in 1..PNF : LET t == DefTimes(TT(inp.x, 1, f))
+  LET e == ref
+  IN \A f \in 1..PNF : LET t == DefTimes(e.tt[1][f])
                        IN e.mo[f] = t.ord /\ e.md[f] = t.dis
 
 (* ============================================================================ *)
@@ -685,17 +696,17 @@ CmpOf(dev) == IF dev # "" /\ dev \in KnownDeviation THEN "i" ELSE "e"
 EmitInv == (Emit /\ Done) =>
   CASE Mode = "times" ->
          LET dev == IF IsDevSingle(inp.tt) THEN DevSingle ELSE ""
-         IN PrintT(<<"TIMES", ToJson([tt |-> inp.tt, e |-> DefTimes(inp.tt), i |-> out,
+         IN PrintT(<<"TIMES", ToJson([tt |-> inp.tt, e |-> ref, i |-> out,
                                       dev |-> dev, cmp |-> CmpOf(dev)])>>)
     [] Mode = "dtraj" ->
          PrintT(<<"DTRAJ", ToJson([tt |-> inp.tt, len |-> inp.len, O |-> inp.O, D |-> inp.D,
-                                   e |-> DefDTraj(inp.tt, inp.len, inp.O, inp.D), i |-> out])>>)
+                                   e |-> ref, i |-> out])>>)
     [] Mode = "agg" ->
          PrintT(<<"AGG", ToJson([times |-> inp.times, den |-> TimeDen, nt |-> inp.nt, w |-> inp.w,
-                                 e |-> DefAgg(AggTimes(inp), inp.w, ANT, ANF), i |-> out])>>)
+                                 e |-> ref, i |-> out])>>)
     [] Mode = "pipe" ->
          LET dev == IF PipeHasDevSingle(inp.x) THEN DevSingle ELSE ""
-             e == DefPipe(inp.x)
+             e == ref
          IN PrintT(<<"PIPE", ToJson([x |-> inp.x, tt |-> e.tt, ns |-> e.ns,
                                      e |-> [mo |-> e.mo, md |-> e.md, dt |-> e.dt],
                                      i |-> [mo |-> out.mo, md |-> out.md, dt |-> out.dt],
